@@ -330,6 +330,65 @@ def scenarios() -> list[Scenario]:
     ]
 
 
+def recovery_run_is_the_victim(ctx: Ctx, clock: VirtualClock) -> None:
+    """the crash hits the RECOVERY SERVICE itself: the runner that popped the message of a recovery-task invocation dies before
+    claiming it.  That run is lost (the listed pop-before-PENDING point) - but the service is periodic: the next cron ticks launch the
+    recovery task again, a surviving runner runs it, and the ordinary invocation a dead runner holds is recovered all the same."""
+    from pynenc import context
+    from pynenc.identifiers.task_id import TaskId
+
+    for kind in ("mem", "sqlite"):
+        for which, held in (("recover_pending_invocations", "pending"), ("recover_running_invocations", "running")):
+            app = make_app(kind, ctx.tmp, app_id=f"c03svc{kind}{held}", max_pending_seconds=5.0, runner_considered_dead_after_minutes=0.5, runner_cls="ThreadRunner")
+            T.C03_DONE.clear()
+            t = app.task(T.c03_body)
+            x = t("ok")
+            o = app.orchestrator
+            o.register_runner_heartbeats(["rDead"])
+            list(o.get_invocations_to_run(1, rctx("rDead")))
+            if held == "running":
+                o.set_invocation_status(x.invocation_id, _S("running"), rctx("rDead"))
+            clock.advance(3_600_000_000)
+            core = app.get_task(TaskId("pynenc.core_tasks", which))
+            cB = rctx("rB")
+            o.register_runner_heartbeats(["rB"])
+            context.set_current_app(app)
+            context.set_runner_context(app.app_id, cB)
+            r0 = app.trigger.execute_task(core.task_id)            # cron tick 1 launches the recovery task ...
+            popped = app.broker.retrieve_invocation()              # ... runner A pops its message and dies
+            ticks = 0
+            for _ in range(4):                                     # the service goes on: tick, a survivor polls and runs what it claims
+                clock.advance(600_000_000)
+                o.register_runner_heartbeats(["rB"])
+                app.trigger.execute_task(core.task_id)
+                ticks += 1
+                for _ in range(3):
+                    for inv in list(o.get_invocations_to_run(5, cB)):
+                        try:
+                            inv.run(cB)
+                        except BaseException:  # noqa: BLE001
+                            pass
+                if o.get_invocation_status(x.invocation_id).is_final():
+                    break
+            flush(app)
+            st = o.get_invocation_status(x.invocation_id).value
+            done = T.C03_DONE.get(x.invocation_id, 0)
+            ctx.count()
+            ctx.distinct((kind, "recovery-run-is-the-victim", held))
+            if not (st in ("success", "failed") and done >= 1):
+                ctx.report(f"recovery-service-stalls[{kind}]:{held}",
+                           f"[{kind}] an invocation is {held} under a dead runner; the runner that popped the first {which} run (popped {popped == r0.invocation_id}) died before claiming it; "
+                           f"after {ticks} more cron ticks with a surviving runner polling and running, the invocation is {st} (body completed {done}x), the first recovery run is "
+                           f"{o.get_invocation_status(r0.invocation_id).value}: the recovery service never runs again",
+                           {"backend": kind, "role": "recovery-service", "held": held, "ticks": ticks})
+
+
+def _S(name: str):  # type: ignore[no-untyped-def]
+    from pynenc.invocation.status import InvocationStatus
+
+    return InvocationStatus(name)
+
+
 def worker_loop_consumption(ctx: Ctx) -> None:
     """fault-free: the REAL worker loop of the persistent-process runner consumes a queue holding a concurrency-blocked invocation
     followed by a runnable one; once the blocking invocation finishes, the blocked one must still complete (nothing may be left
@@ -554,6 +613,7 @@ def run(ctx: Ctx) -> None:
                                        {"backend": kind, "role": sc.name, "crash_before_effect": k1, "second_crash_before_effect": k2, "rescuer_effects": r["effects2"],
                                         "status_at_second_crash": r["pre_status2"], "queued": r["queued2"], "final_status": r["final"]})
                         k2 += 1
+        recovery_run_is_the_victim(ctx, clock)
         worker_loop_consumption(ctx)
         ctx.obligation(f"crash-point table: Lean classification == outcome of the real crash replay on Mem and SQLite ({points} points)", nd == 0, f"{nd} disagreements")
     finally:
